@@ -10,9 +10,9 @@ FIELD_PROPS = {
     "id": ["C14", "C02"], "idc": ["C14", "C02"], "ff": ["C14", "C02"], "ffc": ["C14", "C02"], "ns": ["C14"],
     "reg": ["C03", "C02"], "regdom": ["C03", "C02"], "vir": ["C03", "C02"], "greek": ["C03", "C02"], "hebrew": ["C03", "C02"],
     "kana": ["C03", "C02"], "ld": ["C03", "C02"], "rd": ["C03", "C02"],
-    "wm1": ["C11", "C04"], "wm2": ["C11", "C04"], "wm3": ["C11", "C04"],
+    "wm1": ["C11", "C04"], "wm2": ["C11", "C04"], "wm3": ["C11", "C04"], "wm4": ["C11", "C04"],
     "lc1": ["C10", "C04"], "lc2": ["C10"], "lc3": ["C10", "C04"],
-    "osp": ["C12", "C05"], "nsp": ["C12"],
+    "osp": ["C12", "C05"], "nsp": ["C12"], "osp2": ["C12", "C05"], "nsp2": ["C12", "C06"],
     "bidi1": ["C09", "C04"], "bidi2": ["C09", "C04"], "bidi3": ["C09", "C04"], "bidi4": ["C09", "C04"], "bidi5": ["C09", "C04"],
 }
 TOOL_FIELDS = {"tiling", "sigexc", "sigascii"}
